@@ -40,7 +40,10 @@ META = {
             'not by the formatter: lmsg.time().toString(f); boot = whole milliseconds of lmsg.steadyTime() printed S.mmm; process = the same minus the library\'s '
             'process-start instant, which is a file-static and therefore bracketed from the renderings themselves (3 calibration messages at start-up, then every case: '
             'a rendering p for steady time t confines the instant to (t-(p+1)ms, t-p ms]; a rendering outside the bracket is replaced by the value the bracket predicts). '
-            'Timing legs use real sleeps (2-25 ms) only to move time stamps / "now" apart; no verdict depends on how long a sleep really took.',
+            'Timing legs use real sleeps (2-25 ms) only to move time stamps / "now" apart; no verdict depends on how long a sleep really took.  '
+            'Default-locale sub-run: a few hundred of the same cases (number-bearing ones first, plus fixed %{time process}/%{time boot}/%{line}/int-attribute patterns) '
+            'are formatted while the application-wide default QLocale is de_DE, fr_FR, en_IN or ar_EG (QLocale::setDefault in the harness, restored before the environment '
+            'is rendered under QLocale::c()); the model has no locale, so model = implementation there means every number is plain C text under every default locale.',
     'design_ref': 'DESIGN.md section 4, C12',
     'engine': 'coq+extraction+harness',
 }
@@ -59,6 +62,8 @@ FUNCS = ['void f()', '', 'int A::g(int) const', 'virtual void NS::C<T>::m(const 
          'operator()', 'main']
 TFS = ['hh:mm:ss', 'yyyy-MM-dd', 'process', 'boot', 'hh:mm:ss.zzz', 'yyyy-MM-ddThh:mm:ss', 'dd.MM.yyyy', 'hh']
 ATTRN = ['u', 'user', 'seq_number', 'v', 'x:y', ' message', 'message ', 'Type', 'a b', 'if', 'u:k', 'w', 'n', 'b']
+# default locales of the sub-run: decimal comma + '.' groups, decimal comma + U+202F groups, lakh grouping, native (Arabic-Indic) digits
+LOCALES = ['de_DE', 'fr_FR', 'en_IN', 'ar_EG']
 LITS = ['[', ']', ' ', '#', 'abc', '%%', '%', ':', '{', '}', ZW, '\u00e9', '\U0001F600', '<', '>', ' | ', '--', 'x', '(', ')',
         '"', ',', '?', '!', ' - ', '%%%%', '% ', '%x', '\n', '\u200c']
 
@@ -412,6 +417,33 @@ class Gen:
                 self.hit('timing:fixed')
         return out
 
+    def locale_cases(self, cases, n):
+        """the default-locale sub-run: the documented rules know no locale, so the text must be the same plain C text whatever the
+        application made its default QLocale (decimal comma, digit grouping with ',' / U+202F / lakh groups, native digits).
+        Fixed number-bearing patterns plus up to n of the generated cases (those that print a number first), each under one of
+        LOCALES."""
+        r = self.rng
+        out = []
+        base = {'type': 1, 'msg': 'payload 1,5', 'cat': 'default', 'file': '/a/b/c.cpp', 'fn': 'void f()', 'line': 1234567,
+                'attrs': [['n', 'i', 123456789012], ['seq_number', 'i', 2147483647], ['u', 's', '1234.5']]}
+        for pat in ('%{time process}', '%{time boot}', '%{time boot}|%{time process}|%{message}', '%{line}', '%{file}:%{line} %{n} #%{seq_number:0>12}',
+                    '[%{time process:>12}] %{threadid} %{qthreadptr} %{message}', '%{if-warning}%{time process:*^14!}%{endif}%{u?1,1}%{w?,2}: %{line}',
+                    '%{time hh:mm:ss.zzz} %{time process} %{line:,>9}'):
+            for loc in LOCALES:
+                out.append(dict(base, pat=pat, locale=loc))
+                self.hit('locale:fixed')
+        numeric = ('%{time process', '%{time boot', '%{line', '%{threadid', '%{qthreadptr', '%{n', '%{seq_number')
+        pool = [c for c in cases if not c.get('locale')]
+        first = [c for c in pool if any(t in c['pat'] for t in numeric)]
+        rest = [c for c in pool if not any(t in c['pat'] for t in numeric)]
+        pick = first[:n - n // 5]
+        pick += rest[:n - len(pick)]
+        for c in pick:
+            loc = r.choice(LOCALES)
+            out.append(dict(c, locale=loc))
+            self.hit('locale:' + loc)
+        return out
+
 
 def case_env(c):
     """time formats the environment must render: the fixed pool plus whatever follows 'time ' in the pattern"""
@@ -444,6 +476,9 @@ def impl_line(c):
     # timing (ms): gap = sleep before the LogMessage is constructed (-1: until the wall clock enters the next second),
     # delay = sleep between construction and the observed format() call, again = sleep before the same object formats the same message again
     f += [str(c.get('gap', 0)), str(c.get('delay', 0)), str(c.get('again', 0))]
+    # the application-wide default QLocale (QLocale::setDefault) while the object under test works; absent = the start-up default
+    if c.get('locale'):
+        f += [hx(c['locale'])]
     return ' '.join(f)
 
 
@@ -507,6 +542,7 @@ def evaluate(cases, impl, model):
 def describe(c, r):
     d = {'case': c, 'pattern': c['pat'], 'message': c['msg'], 'type': c['type'], 'attributes': c['attrs'], 'file': c.get('file'), 'pre_formatted_with': c.get('prefmt'), 'formatted_twice': bool(c.get('twice')),
          'has_zero_width_space': ZW in ((c['msg'] or '') + c['pat'] + ''.join(str(a[2] or '') for a in c['attrs'])),
+         'default_locale': c.get('locale'),
          'implementation_output': unhx(r.get('impl', '')), 'model_output': unhx(r.get('model', '')),
          'documented_concatenation': unhx(r.get('full', '')), 'active_removing_optional_attributes': r.get('nrem'),
          'implementation_output_hex': r.get('impl'), 'model_output_hex': r.get('model'),
@@ -528,6 +564,8 @@ def shrink(c, impl, model, bad):
             return bad(dict(cur, **{key: ''.join(chars)}))
         cur[key] = ''.join(vlib.shrink_list(list(cur[key]), still, max_steps=250))
     cur['attrs'] = vlib.shrink_list(cur['attrs'], lambda a: bad(dict(cur, attrs=a)), max_steps=40)
+    if cur.get('locale') and bad(dict(cur, locale=None)):
+        cur['locale'] = None       # fails under the start-up default locale as well: the locale is not part of the failing input
     return cur
 
 
@@ -813,6 +851,7 @@ def run():
                        'attribute values are strings, ints or bools (QVariant::toString of other types is outside the model)',
                        'sequence leg: the messages of a sequence are formatted on one thread, one after the other (sharing one formatter between threads is outside C12)',
                        'concurrent leg: formatters and messages are per thread (no object is shared); it is a stress test, not a proof of thread safety',
+                       'locale: the application-wide DEFAULT QLocale is varied (de_DE, fr_FR, en_IN, ar_EG); the SYSTEM locale (QLocale::system(), used by QDateTime::toString(format)) is the sandbox\'s and is environment, not varied',
                        'messages and values are well-formed UTF-16 (truncation may still cut a surrogate pair, as documented in the model)']
     chk.proof(vlib.proof_leg('Properties_C12', ['pattern']))
     model = vlib.build_model('pattern')
@@ -821,6 +860,9 @@ def run():
     g = Gen(chk.rng, slow_budget=400 if thorough else 70, boundary_budget=20 if thorough else 3)
     corpus = load_corpus()
     cases = list(corpus) + g.fixed_time_cases() + [g.case() for _ in range(100000 if thorough else 15000)]
+    # the same cases once more under another application-wide default QLocale (the model has no locale: model = implementation under each)
+    nplain = len(cases)
+    cases += g.locale_cases(cases, 2000 if thorough else 400)
     if thorough:
         # the pending count saturates at INT_MAX (only here: code carrying markers in band would allocate 2^31 of them)
         base = dict(cases[0]) if cases else g.case()
@@ -881,15 +923,16 @@ def run():
                 'with a missing optional attribute the output is not the documented concatenation minus at most the requested characters')
         ctx = ''.join([' file %r' % small['file'] if 'file' in small['pat'] else '',
                        ' (message pre-formatted with %r by an earlier formatter)' % small['prefmt'] if small.get('prefmt') is not None else '',
-                       ' (second pass: the formatter had already processed this message)' if small.get('twice') else ''])
+                       ' (second pass: the formatter had already processed this message)' if small.get('twice') else '',
+                       ' under QLocale::setDefault(QLocale("%s")) - the documented text does not depend on the default locale' % small['locale'] if small.get('locale') else ''])
         chk.fail('%s: pattern %r message %r%s -> %r, documented %r' % (what, small['pat'], small['msg'], ctx, unhx(r['impl']), unhx(r['full'])),
                  dict(describe(small, r), kind=cls, falsified_cases=len(sel), model_disagrees=r['impl'] != r['model']), kind=cls)
     if differs and not falsified:
         i = min(differs, key=lambda i: len(cases[i]['pat']) + len(cases[i]['msg'] or ''))
         small = shrink(cases[i], impl, model, bad_diff)
         r = evaluate([small], impl, model)[0]
-        chk.broke('correspondence: model and PatternFormatter differ on %d cases (oracle holds on all of them), e.g. pattern %r message %r: implementation %r model %r'
-                  % (len(differs), small['pat'], small['msg'], unhx(r['impl']), unhx(r['model'])),
+        chk.broke('correspondence: model and PatternFormatter differ on %d cases (oracle holds on all of them), e.g. pattern %r message %r%s: implementation %r model %r'
+                  % (len(differs), small['pat'], small['msg'], ' under the default locale %s' % small['locale'] if small.get('locale') else '', unhx(r['impl']), unhx(r['model'])),
                   dict(describe(small, r), kind='correspondence'))
     elif differs:
         chk.cov['model_differs_as_well'] = len(differs)
@@ -908,6 +951,8 @@ def run():
         'oracle_falsified': len(falsified), 'crashed': len(crashed), 'env_missing_skipped': len(env_missing),
         'same_message_formatted_again_gave_another_text': len(changing),
         'cases_waiting_before_format_or_formatted_again_later': sum(1 for c in cases if c.get('delay') or c.get('again')),
+        'cases_under_another_default_locale': {l: sum(1 for c in cases if c.get('locale') == l) for l in LOCALES},
+        'default_locale_cases_falsified_or_differing': sum(1 for i in set(falsified) | set(differs) if cases[i].get('locale')),
         'cases_with_time_placeholder': sum(1 for c in cases if '%{time' in c['pat']),
         'tokens_histogram': {str(k): v for k, v in sorted(hist_tok.items())},
         'active_removing_optional_attributes_histogram': {str(k): v for k, v in sorted(hist_rem.items())},
@@ -923,7 +968,7 @@ def run():
     chk.cov['concurrent_leg'] = concurrent_leg(chk, cc, impl, model, 8 if thorough else 4, 2000000 if thorough else 40000, 15000 if thorough else 1500)
     if thorough:
         san = vlib.build_harness('pattern', 'san')
-        sub = cases[:20000]
+        sub = cases[:min(20000, nplain)] + cases[nplain:]
         rs = evaluate(sub, san, model)     # compared with the model under ITS OWN environment (time, thread id differ between runs)
         bad = [i for i, r in enumerate(rs) if r['crashed'] or (not r['envmiss'] and (r['impl'] != r['model'] or not r['oracle']))]
         srs = eval_sequences(seqs[:2000], san, model)
@@ -939,7 +984,7 @@ def run():
         chk.cov['sanitizer_build_differences'] = len(bad)
         if bad:
             i = bad[0]
-            chk.fail('the ASan/UBSan build reports an error or prints something else', dict(describe(cases[i], rs[i]), kind='sanitizer', raw=rs[i].get('impl_raw')), kind='sanitizer')
+            chk.fail('the ASan/UBSan build reports an error or prints something else', dict(describe(sub[i], rs[i]), kind='sanitizer', raw=rs[i].get('impl_raw')), kind='sanitizer')
     pick = [i for i in ok if res[i]['ntok'] >= 3][:2] + [i for i in ok if res[i]['nrem'] > 0][:1]
     chk.samples = [{'pattern': cases[i]['pat'], 'message': cases[i]['msg'], 'type': cases[i]['type'], 'attributes': cases[i]['attrs'],
                     'impl': unhx(res[i]['impl'])[:160], 'model': unhx(res[i]['model'])[:160]} for i in pick]
@@ -982,6 +1027,8 @@ def replay(path):
     x = evaluate([c], impl, model)[0]
     print('pattern        %r' % c['pat'])
     print('message        %r  type=%d attributes=%r file=%r category=%r' % (c['msg'], c['type'], c['attrs'], c.get('file'), c.get('cat')))
+    if c.get('locale'):
+        print('default locale QLocale::setDefault(QLocale("%s")) while the formatter works' % c['locale'])
     if c.get('prefmt') is not None or c.get('twice'):
         print('               pre-formatted with %r, formatted twice: %s' % (c.get('prefmt'), bool(c.get('twice'))))
     if x['crashed']:
